@@ -33,7 +33,7 @@ kf("C01", "C01-clz-ctz", "countLeadingZeros/countTrailingZeros are emitted as ba
 kf("C01", "C01-round-ties", "round() is emitted as GLSL.std.450 Round, whose tie direction is implementation-chosen; WGSL requires ties-to-even (RoundEven)",
    ["C01|F1/call/round/*|*|mismatch"])
 kf("C01", "C01-abs-unsigned", "abs(u32) is emitted as SAbs, so abs(0xFFFFFFFFu) yields 1 instead of 0xFFFFFFFF (abs on unsigned is the identity)",
-   ["C01|F1/call/abs/*u32*|*|mismatch"])
+   ["C01|F1/call/abs/*u32*|*|mismatch", "C01|F4c/call:abs:u32*|*|mismatch"])
 kf("C01", "C01-switch-all-break-unreachable", "a switch whose every clause ends in break (e.g. `switch x { case 0: { break; } default: { break; } }`) branches to a merge block terminated by OpUnreachable, which is then executed",
    ["C01|F2/*|*|trap:unreachable", "C01|F2L/*|*|trap:unreachable"])
 
@@ -53,6 +53,8 @@ kf("C03", "C03-inverse-hyperbolic", "asinh/acosh/atanh are emitted as calls to f
 # ---------------------------------------------------------------- C04 (MSL semantics)
 kf("C04", "C04-round-ties", "round() is emitted as metal::round (ties away from zero); WGSL requires ties-to-even (metal::rint)",
    ["C04|F1/call/round/*|*|mismatch"])
+kf("C04", "C04-select-ternary-precedence", "a scalar select() used as an operand of a binary operator was written as an unparenthesised ternary: `select(a, b, c) + d` became `c ? b : a + d`",
+   ["C04|F4c/bin:*(call:select:*|*|mismatch", "C04|F4c/bin:*(call:select:*|*|trap:*"], "fixed:d5f63a7")
 kf("C04", "C04-firstLeadingBit-u32", "firstLeadingBit(u32) guards with `x == 0 || x == -1`; for unsigned x the second test matches 0xFFFFFFFF, which yields 0xFFFFFFFF instead of 31",
    ["C04|F1/call/firstLeadingBit/*u32*|*|mismatch"])
 kf("C04", "C04-int-dot-overflow", "dot() on i32 vectors is emitted as plain `a.x * b.x + ...` on int; signed overflow is undefined in MSL/C++ (WGSL wraps)",
@@ -64,7 +66,7 @@ kf("C05", "C05-vector-select-ternary", "select() with a vector condition is emit
 kf("C05", "C05-clz-ctz", "countTrailingZeros is emitted as findLSB (ctz(0) = -1 instead of 32) and countLeadingZeros(i32) as 31 - findMSB(x) (wrong for negative x); for u32 both are int expressions assigned to uint (a type error in ES)",
    ["C05|F1/call/countLeadingZeros/*|*|m*", "C05|F1/call/countTrailingZeros/*|*|m*"])
 kf("C05", "C05-abs-unsigned", "abs(u32) is emitted as abs(uint), which GLSL does not define (type error)",
-   ["C05|F1/call/abs/*u32*|*|malformed-output*"])
+   ["C05|F1/call/abs/*u32*|*|malformed-output*", "C05|F4c/*call:abs:u32*|*|malformed-output*"])
 
 # ---------------------------------------------------------------- C10 (robustness)
 kf("C10", "C10-swizzle-chain-exponential", "a chained swizzle `v.xyzw.xyzw...` makes lowering time grow exponentially: 64 links (under 400 bytes of source) exceed the CPU cap",
